@@ -165,8 +165,21 @@ pub fn arb_twin() -> impl Strategy<Value = Twin> {
         prop_oneof![Just(1u64), 1u64..1_000_000, 1_000_000u64..315_360_000_000_000],
         1u8..6,
         any::<bool>(),
+        // the client's source address changes mid-transfer (the server migrates: path challenges on both
+        // paths, new congestion state), connection IDs rotate on a short lifetime
+        (prop::option::weighted(0.3, 100_000u32..3_000_000), prop::option::weighted(0.3, 100u32..3000), prop::option::weighted(0.3, 100u32..3000)),
     )
-        .prop_map(|(mut x, shift_us, spurious_every, idle)| {
+        .prop_map(|(mut x, shift_us, spurious_every, idle, (mv, life_c, life_s))| {
+            if let (Some(t), true) = (mv, x.net.client_ep.cid_len > 0 && x.net.server_ep.cid_len > 0) {
+                x.net.client_move_at_us = Some(t);
+                x.net.srv.migration = true;
+            }
+            if x.net.client_ep.cid_lifetime_ms.is_none() {
+                x.net.client_ep.cid_lifetime_ms = life_c;
+            }
+            if x.net.server_ep.cid_lifetime_ms.is_none() {
+                x.net.server_ep.cid_lifetime_ms = life_s;
+            }
             if idle {
                 // finite idle timeouts make connections end (Drained) within the horizon
                 x.net.client_tc.idle_ms = Some(3_000);
@@ -182,7 +195,7 @@ pub fn run(report: &Report) -> i32 {
     run_prop(
         report,
         "c20",
-        "histories from the transfer generator (faults, closes, idle timeouts, datagrams, late timers) replayed under R1 identical / R2 time-shifted (1 us .. 10 years) / R3 spurious handle_timeout+poll_transmit calls; oracle: identical canonical output traces (transmits incl. bytes, events, timeouts, poll_timeout values), extra calls return nothing, timeout service converges at one instant, silence after Drained; non-trivial = a timer fired, a retransmission happened, >= 50 outputs and >= 5 spurious calls were inserted",
+        "histories from the transfer generator (faults, closes, idle timeouts, datagrams, late timers, client address changes with server migration, connection ID rotation) replayed under R1 identical / R2 time-shifted (1 us .. 10 years) / R3 spurious handle_timeout+poll_transmit calls; oracle: identical canonical output traces (transmits incl. bytes, events, timeouts, poll_timeout values), extra calls return nothing, timeout service converges at one instant, silence after Drained; non-trivial = a timer fired, a retransmission happened, >= 50 outputs and >= 5 spurious calls were inserted",
         arb_twin,
         report.cases(12_000, 400_000),
         case,
